@@ -105,7 +105,7 @@ def run(ctx):
     if ctx.tier == "thorough":
         args = ["-seed", str(ctx.seed), "-n", "160", "-blocks", "40", "-long", "12", "-shard", "6"]
     else:
-        args = ["-seed", str(ctx.seed), "-n", "28", "-blocks", "32", "-long", "2", "-shard", "2"]
+        args = ["-seed", str(ctx.seed), "-n", "22", "-blocks", "32", "-long", "1", "-shard", "2"]
     extra = os.path.join(common.VERIF, "corpus", "C12.json")
     if os.path.exists(extra):
         args += ["-extra", extra]
